@@ -393,7 +393,7 @@ func (g *G) genesis() *script.Genesis {
 		if g.chance(35) {
 			f.Reg, f.Rec, f.Buy = 1_000_000_000_000, 1_000_000_000, 5_000_000_000
 		}
-		l := [][2]uint64{{3, 6}, {2, 2}, {1, 5}, {200, 300}}[g.rng.Intn(4)]
+		l := [][2]uint64{{3, 6}, {2, 2}, {1, 5}, {200, 300}, {3, 6}, {2, 18446744073709551615}, {3, 9223372036854775808}}[g.rng.Intn(7)]
 		f.Def, f.Max, f.Sid = l[0], l[1], []uint64{1, 1, 7}[g.rng.Intn(3)]
 		return f
 	}
